@@ -24,19 +24,19 @@ EXTENDS Trap, FiniteSets, TLC
 CONSTANTS Ds, W, H,
           Tops, Heights,        \* top and bottom - top, lattice units (tops may be negative via TopShift)
           TopShift,             \* subtracted from every element of Tops
-          XLs, XRs,             \* abscissae of left / right edge end points
+          XLs, XRs, XMs,        \* abscissae of left / right / middle edge end points
           Exts,                 \* how far the edge end points lie above top / below bottom
           QStale, QExact0
 
 VARIABLES c
 
-Q == [stale |-> QStale, exact0 |-> QExact0, wrap |-> FALSE]
+Q == [stale |-> QStale, exact0 |-> QExact0, backstep |-> QStale, wrap |-> FALSE]
 
 Tz(top, bot, e1, e2, la, lb, ra, rb) == <<top, bot, la, top - e1, lb, bot + e2, ra, top - e1, rb, bot + e2>>
 
 MCInit == \E n \in Ds, t \in Tops, h \in Heights : c = [ph |-> "pick", n |-> n, top |-> t - TopShift, bot |-> t - TopShift + h]
 Pick == /\ c.ph = "pick"
-        /\ \E e1 \in Exts, e2 \in Exts, la \in XLs, lb \in XLs, ra \in XRs, rb \in XRs, ma \in XLs \cup XRs, mb \in XLs \cup XRs :
+        /\ \E e1 \in Exts, e2 \in Exts, la \in XLs, lb \in XLs, ra \in XRs, rb \in XRs, ma \in XMs, mb \in XMs :
               c' = [ph |-> "trap", n |-> c.n, tz |-> Tz(c.top, c.bot, e1, e2, la, lb, ra, rb),
                     mid |-> <<ma, c.top - e1, mb, c.bot + e2>>]
 MCNext == Pick
